@@ -607,15 +607,28 @@ func (m *machine) entityReannounced(t *rapid.T) {
 		before[i] = m.snapshot(i)
 	}
 	added := model.NetworkManagementStateChangeTypeAdded
+	ent := regs.PeerEntities()[1]
+	// ... unchanged, or without one of its client features (what becomes of the registry entries of
+	// a feature that is not announced any more is the code's choice - but they still are entries of
+	// that device and go with it)
+	reduced := rapid.IntRange(0, 2).Draw(t, "withoutOneFeature") == 0
+	if reduced {
+		drop := rapid.IntRange(0, 1).Draw(t, "droppedFeature")
+		ent.Feats = append(append([]world.FeatSpec{}, ent.Feats[:drop]...), ent.Feats[drop+1:]...)
+		world.Label("entity-reannounced/without-one-feature")
+	}
 	cmd := model.CmdType{Function: ptr(model.FunctionTypeNodeManagementDetailedDiscoveryData), Filter: []model.FilterType{*model.NewFilterTypePartial()},
-		NodeManagementDetailedDiscoveryData: p.DiscoveryData([]world.EntSpec{regs.PeerEntities()[1]}, &added)}
+		NodeManagementDetailedDiscoveryData: p.DiscoveryData([]world.EntSpec{ent}, &added)}
 	p.Send(p.Msg(model.CmdClassifierTypeNotify, p.NM(), world.LocalNM(), false, nil, cmd))
 	m.w.Sync()
 	p.Cap.Drain()
 	m.w.Events.Drain()
-	m.logf("peer%d announces entity [2] again (unchanged)", pi+1)
-	m.ops = append(m.ops, "entity-reannounced")
+	m.logf("peer%d announces entity [2] again (without one feature: %v)", pi+1, reduced)
+	m.ops = append(m.ops, fmt.Sprintf("entity-reannounced:%v", reduced))
 	for i := range m.w.Peers {
+		if reduced && i == pi {
+			continue
+		}
 		if after := m.snapshot(i); !reflect.DeepEqual(before[i], after) {
 			world.Fail(t, "C10/reannouncement-changed-state", "re-announcing an unchanged entity of peer%d changed the state of peer%d\n before: %+v\n after:  %+v%s", pi+1, i+1, before[i], after, m.history())
 		}
